@@ -20,11 +20,17 @@ EXTENDS Norm
 CONSTANTS MaxOps,      \* bound on the number of apply/undo calls in a history
           Depth,       \* 1: single classes, 2: chains of two, 3: chains of three members
           NViews,       \* 1 or 2 views (2: the groupings that relate views are explored too)
-          TangBelow    \* tangential positions -TangBelow..0
-VARIABLES obj, G, su, data, cnt, wild, lastErr, nops,
-          effT         \* memoised abstract efficiency of the state's object, bin by bin
+          TangBelow,   \* tangential positions -TangBelow..0
+          ModAt        \* numbers of preceding calls after which the inputs of the object may be changed (re-use)
+VARIABLES obj,         \* the object as its CURRENT inputs describe it
+          impl,        \* the inputs the implementation serves: obj, or - between a change of the inputs and the
+                       \* next set_up - possibly still the previous ones (tables built by set_up)
+          G, su, data, cnt, wild, lastErr, nops,
+          base,        \* the data when the served inputs last changed (cnt counts from there)
+          nmods,       \* number of changes of the inputs so far (at most one per history)
+          effT         \* memoised abstract efficiency of impl, bin by bin
 
-vars == <<obj, G, su, data, cnt, wild, lastErr, nops, effT>>
+vars == <<obj, impl, G, su, data, cnt, wild, lastErr, nops, base, nmods, effT>>
 
 GTof == [scanner |-> "mc", N |-> 4, R |-> 2, tofMash |-> 1, views |-> NViews, minSeg |-> -1, maxSeg |-> 1, ax |-> <<1, 2, 1>>,
          minTang |-> -TangBelow, maxTang |-> 0, minTof |-> -1, maxTof |-> 1]
@@ -51,8 +57,10 @@ ObjC1(g) == LET f(b) == 0 IN [cls |-> "Cal", g |-> g, tab |-> Table(g, f), calib
 Singles(g) == {ObjT, ObjP0, ObjC(g), ObjP00, ObjC1(g)} \cup (IF IsTof(g) THEN {ObjP1} ELSE {ObjK, ObjK1})
 Leaves(g) == {ObjT, ObjP0, ObjC(g)} \cup (IF IsTof(g) THEN {ObjP1} ELSE {ObjK, ObjK1})
 Chain2(g) == { [cls |-> "Chain", first |-> x, second |-> y] : x \in Leaves(g), y \in Leaves(g) }
-Chain3(g) == { [cls |-> "Chain", first |-> x, second |-> y] : x \in {ObjT, ObjP0, ObjC(g)}, y \in Chain2(g) }
-               \cup { [cls |-> "Chain", first |-> y, second |-> x] : x \in {ObjP0, ObjC(g)}, y \in { c \in Chain2(g) : c.first.cls # "Trivial" } }
+\* chains of three: a representative family (a factor-data member in front of every chain of two; the calibrated
+\* class behind every chain of two that does not start with the trivial class)
+Chain3(g) == { [cls |-> "Chain", first |-> ObjP0, second |-> y] : y \in Chain2(g) }
+               \cup { [cls |-> "Chain", first |-> y, second |-> ObjC(g)] : y \in { c \in Chain2(g) : c.first.cls # "Trivial" } }
 Objects(g) == Singles(g) \cup (IF Depth >= 2 THEN Chain2(g) ELSE {}) \cup (IF Depth >= 3 THEN Chain3(g) ELSE {})
 
 \* original data: distinct exponents, one zero datum
@@ -97,11 +105,17 @@ Init == /\ G \in {GTof, GNon}
         /\ wild = {}
         /\ lastErr = "none"
         /\ nops = 0
+        /\ impl = obj /\ base = data /\ nmods = 0
         /\ effT = [b \in BinsOf(G) |-> Eff(obj, b)]
 
+\* set_up: from now on the factor is that of the CURRENT inputs
 DoSetUp(g) == /\ su' = IF SetUpMustSucceed(obj, g) THEN SetUpWith(g) ELSE SetUpFailed
               /\ lastErr' = "none"
-              /\ UNCHANGED <<obj, G, data, cnt, wild, nops, effT>>
+              /\ impl' = obj
+              /\ IF impl = obj THEN UNCHANGED <<effT, base, cnt, wild>>
+                 ELSE /\ effT' = [b \in BinsOf(G) |-> Eff(obj, b)]
+                      /\ base' = data /\ cnt' = [b \in BinsOf(G) |-> 0] /\ wild' = {}
+              /\ UNCHANGED <<obj, G, data, nops, nmods>>
 
 \* a call on one set of related viewgrams of the data
 DoRelated(op, grouping, i, k) ==
@@ -112,10 +126,10 @@ DoRelated(op, grouping, i, k) ==
   /\ IF mode = "required"
      THEN lastErr' = "err" /\ UNCHANGED <<data, cnt, wild>>
      ELSE /\ lastErr' = "ok"
-          /\ data' = OneSet(obj, op, G, data, vg)
+          /\ data' = OneSet(impl, op, G, data, vg)
           /\ cnt' = Bump(cnt, Touched(vg), op)
           /\ wild' = wild \cup (IF op = "apply" THEN Touched(vg) \cap ZeroEffBins ELSE {})
-  /\ UNCHANGED <<obj, G, su, effT>>
+  /\ UNCHANGED <<obj, impl, G, su, effT, base, nmods>>
 
 \* a call on data with FEWER segments than the data the object was set up for: it passes the geometry check; the
 \* classes may still refuse it (then nothing changes), otherwise the result must be right
@@ -127,10 +141,10 @@ DoRelatedSmall(op, i, k, refuse) ==
   /\ IF mode = "required" \/ (mode = "either" /\ refuse)
      THEN lastErr' = "err" /\ UNCHANGED <<data, cnt, wild>>
      ELSE /\ lastErr' = "oksmall"
-          /\ data' = OneSet(obj, op, Small(G), data, vg)
+          /\ data' = OneSet(impl, op, Small(G), data, vg)
           /\ cnt' = Bump(cnt, Touched(vg), op)
           /\ wild' = wild \cup (IF op = "apply" THEN Touched(vg) \cap ZeroEffBins ELSE {})
-  /\ UNCHANGED <<obj, G, su, effT>>
+  /\ UNCHANGED <<obj, impl, G, su, effT, base, nmods>>
 
 \* a call on the whole data set, any grouping
 DoWhole(op, grouping) ==
@@ -140,24 +154,51 @@ DoWhole(op, grouping) ==
   /\ IF mode = "required"
      THEN lastErr' = "err" /\ UNCHANGED <<data, cnt, wild>>
      ELSE /\ lastErr' = "ok"
-          /\ data' = WholeImpl(obj, op, G, data, grouping, 1, G.minTof)
+          /\ data' = WholeImpl(impl, op, G, data, grouping, 1, G.minTof)
           /\ cnt' = Bump(cnt, BinsOf(G), op)
           /\ wild' = wild \cup (IF op = "apply" THEN ZeroEffBins ELSE {})
-  /\ UNCHANGED <<obj, G, su, effT>>
+  /\ UNCHANGED <<obj, impl, G, su, effT, base, nmods>>
 
-\* the calibrated class: a new calibration factor clears the set-up flag
-\* (the efficiency changes with it, so the model allows it only before the first call of the history)
-DoSetCalib == /\ obj.cls = "Cal" /\ obj.calib = 1 /\ nops = 0
+\* Re-use: the inputs of the same object are changed through its public API (other factor data, component factors
+\* changed in place, a member of a chain changed).  Until the next set_up the implementation may serve the previous
+\* inputs (`keep': tables built by set_up) or the current ones (inputs read at every call).
+ObjP0b == LET f(b) == b.seg - b.view - b.tang IN [cls |-> "PD", g |-> GNon, tab |-> Table(GNon, f)]
+RECURSIVE HasAlt(_)
+HasAlt(o) == CASE o.cls = "PD" -> ~IsTof(o.g)
+               [] o.cls = "Comp" -> TRUE
+               [] o.cls = "Chain" -> HasAlt(o.first) \/ HasAlt(o.second)
+               [] OTHER -> FALSE
+RECURSIVE AltOf(_)
+AltOf(o) == CASE o.cls = "PD" -> IF o = ObjP0b THEN ObjP0 ELSE ObjP0b
+              [] o.cls = "Comp" -> IF o = ObjK1 THEN ObjK ELSE ObjK1
+              [] o.cls = "Chain" -> IF HasAlt(o.first) THEN [o EXCEPT !.first = AltOf(o.first)] ELSE [o EXCEPT !.second = AltOf(o.second)]
+DoModify(keep) ==
+  /\ nmods = 0 /\ nops \in ModAt /\ HasAlt(obj) /\ impl = obj
+  /\ nmods' = 1
+  /\ obj' = AltOf(obj)
+  /\ lastErr' = "none"
+  /\ IF keep THEN UNCHANGED <<impl, effT, base, cnt, wild>>
+     ELSE /\ impl' = obj'
+          /\ effT' = [b \in BinsOf(G) |-> Eff(obj', b)]
+          /\ base' = data /\ cnt' = [b \in BinsOf(G) |-> 0] /\ wild' = {}
+  /\ UNCHANGED <<G, su, data, nops>>
+
+\* the calibrated class: a new calibration factor clears the set-up flag (an error is required until the next set_up)
+DoSetCalib == /\ obj.cls = "Cal" /\ obj.calib = 1 /\ nmods = 0 /\ nops \in ModAt \cup {0} /\ impl = obj
+              /\ nmods' = 1
               /\ obj' = [obj EXCEPT !.calib = 2]
+              /\ impl' = obj'
               /\ su' = NotSetUp /\ lastErr' = "none"
               /\ effT' = [b \in BinsOf(G) |-> Eff(obj', b)]
-              /\ UNCHANGED <<G, data, cnt, wild, nops>>
+              /\ base' = data /\ cnt' = [b \in BinsOf(G) |-> 0] /\ wild' = {}
+              /\ UNCHANGED <<G, data, nops>>
 
 Next == \/ \E g \in {G, Small(G)} : DoSetUp(g)
         \/ \E op \in {"apply", "undo"} : \E grouping \in Groupings : \E i \in 1..Len(grouping) : \E k \in G.minTof..G.maxTof : DoRelated(op, grouping, i, k)
         \/ \E op \in {"apply", "undo"} : \E grouping \in Groupings : DoWhole(op, grouping)
         \/ \E op \in {"apply", "undo"} : \E i \in 1..Len(GrSmall) : \E k \in G.minTof..G.maxTof : \E refuse \in BOOLEAN : DoRelatedSmall(op, i, k, refuse)
         \/ DoSetCalib
+        \/ \E keep \in BOOLEAN : DoModify(keep)
 Spec == Init /\ [][Next]_vars
 
 (* ------------------------------ invariants ------------------------------ *)
@@ -167,11 +208,15 @@ Pow(d, n, e) == IF n = 0 THEN d ELSE IF n > 0 THEN Pow(MulV(d, e), n - 1, e) ELS
 InvFactor == \A b \in BinsOf(G) :
                LET e == effT[b] IN
                IF e = ZERO
-               THEN (b \in wild) \/ data[b] \in {D0(G, b), ZERO}          \* nothing is promised after a division by zero
-               ELSE data[b] = Pow(D0(G, b), cnt[b], e)
-InvTrivialMC == (AllOne(obj) \/ \A b \in BinsOf(G) : effT[b] = 0) => \A b \in BinsOf(G) : data[b] = D0(G, b)
+               THEN (b \in wild) \/ data[b] \in {base[b], ZERO}          \* nothing is promised after a division by zero
+               ELSE data[b] = Pow(base[b], cnt[b], e)
+InvTrivialMC == (AllOne(impl) \/ \A b \in BinsOf(G) : effT[b] = 0) => \A b \in BinsOf(G) : data[b] = base[b]
+\* the factor after each set_up is that of the current inputs; served inputs differ from the current ones only
+\* between a change and the next set_up
+InvCurrent == /\ (impl # obj => nmods = 1)
+              /\ \A b \in BinsOf(G) : effT[b] = Eff(impl, b)
 \* theorems about the efficiency of the state's object (evaluated when the object or its calibration is new)
-Fresh == nops = 0 /\ su.st = "none"
+Fresh == nops = 0 /\ su.st = "none" /\ impl = obj
 \* "a normalisation that reports itself trivial changes nothing": whenever the specification accepts the answer
 \* `true' from is_trivial(), the abstract efficiency is 1 everywhere
 InvReportsTrivial == (Fresh /\ TrivialAnswerOk(obj, TRUE)) => \A b \in BinsOf(G) : effT[b] = 0
